@@ -120,3 +120,21 @@ check("C11",
       "and features_of_type with every filter and order_by form; counts, featuretypes(), seqids(); each answer is judged by Trace_Select.",
       TB + "Coordinates are present; 'attributes'/'extra' are not ordered on.",
       "TLA+ declarative spec (Select) + TLC accept/reject lemma for the judge + trace validation of real query results (Trace_Select)")
+
+check("C13",
+      "Source.tla models the input side: line classification, peek (checklines+1 items; one-shot sources get them chained back), transform/skip, inspect(). TLC checks "
+      "Out_Alg = Out_Decl (no loss, duplicate or reorder) for every form, transform and drop set over all item sequences of <= 5 (quick) / 6 (thorough) lines x every "
+      "checklines, and prints each case with the expected feature sequence and inspect() tallies. Each case is supplied to the code in all seven forms (path, gzip, "
+      "from_string, list, generator, DataIterator, FeatureDB): iterated sequence, create_db content, transforms that record their calls, inspect() for 4 look_for "
+      "subsets x limit.",
+      TB + "URL input is not run (no network).",
+      "TLA+ spec (Source) + TLC alg-vs-decl invariants over all short files x checklines + spec-generated cases replayed in seven input forms")
+
+check("C14",
+      "Source.tla: Scan classifies lines (## directive, # comment, blank, ##FASTA / > cut), Directives_Decl is the statement, DirsSeenByPeek what a generator abandoned after "
+      "checklines+1 features has recorded, DbDirectives_Alg what reaches the database. TLC checks InvDirectives, InvNothingAfterFasta and that the F9 deviation loses exactly "
+      "the directives beyond the window, for every sequence of <= 5/6 lines over 8 line kinds x every checklines. Each file is read as path and from_string: "
+      "DataIterator.directives after iteration, create_db().directives, FeatureDB(path).directives, iterated and stored features; long files with directives far beyond "
+      "the window in addition.",
+      TB + "Blank lines are empty lines.",
+      "TLA+ spec (Source) + TLC invariants over all short files x checklines + spec-generated files replayed through iterator, importer and reopen")
